@@ -231,13 +231,20 @@ def random_validation(tier, wd, rep, ev):
             rep.violation(key, "random vector: observed outcome is not the one OptParse!Parse prescribes: "
                           + json.dumps(rec["obs"])[:600],
                           {"phase": "random", "specs": rec["specs"], "m": rec["m"], "text": rec["text"]})
+    want = {"accepted": 1, "rejected": 1}
     with open(trace) as f:
-        for i, line in enumerate(f):
-            if i in (17, 4242):
-                rec = json.loads(line)
+        for line in f:
+            if not any(want.values()):
+                break
+            rec = json.loads(line)
+            o = rec["obs"]
+            kind = "accepted" if o["ok"] and len(o["opts"]) >= 3 else ("rejected" if not o["ok"] and len(rec["text"]) >= 3 else "")
+            if kind and want[kind]:
+                want[kind] -= 1
                 ev["samples"].append({"specs": specs_str(rec["specs"]), "mode": rec["m"], "argv": rec["text"],
-                                      "obs": {k: rec["obs"][k] for k in ("ok", "err")},
-                                      "options": [[o["i"], "".join(o["arg"])] for o in rec["obs"]["opts"]]})
+                                      "obs": {k: o[k] for k in ("ok", "err")},
+                                      "options": [[x["i"], "".join(x["arg"])] for x in o["opts"]],
+                                      "operands": ["".join(x) for x in o["operands"]]})
     vlib.log(f"[p4b] {info['events']} random records (<= {maxlen} arguments) validated by Trace_OptParse in {info['wall']:.1f}s")
     ev["random"] = {"records": info["events"], "maxlen": maxlen,
                     "unspecified_empty_long_name": info0.get("with_empty_long_name", 0)}
